@@ -140,6 +140,14 @@ def analyze(ob):
         max_uninteresting_iterations=10 ** 9,
         report_all=True,
     )
+    if ob["kind"] == "e3":
+        # direct z3 encodings regenerated from the live module; the body runs its own queries
+        out = resolve(ob["body"])(ob)
+        res.update(out)
+        res["solver_calls"] = max(solver["calls"], out.get("queries", 0))
+        res["solver_s"] = round(solver["seconds"], 3)
+        res["wall_s"] = round(time.time() - t0, 3)
+        return res
     if ob["kind"] == "e2c":
         STATE["body"] = resolve(ob["body"])
         STATE["params"] = ob.get("params", {})
